@@ -275,6 +275,10 @@ func (p *fmter) printComment(comment Comment) {
 
 func (p *fmter) doDescription(desc Description) {
 	linesOut := reformatDescription(desc.Value, 80-p.indent*4)
+	if len(linesOut) == 0 {
+		// an empty description line is still a description
+		linesOut = []string{""}
+	}
 	p.multiLineToken(desc.SourceNode, "| ", linesOut)
 }
 
